@@ -35,7 +35,11 @@ class RunTimeout(BaseException):
     pass
 
 
+_ALARM = {'fired': False}
+
+
 def _alarm(signum, frame):
+    _ALARM['fired'] = True
     raise RunTimeout()
 
 
@@ -75,9 +79,16 @@ def safe_execute(mod, scn, keep_log=False):
     the library (an endless loop while handling a frame), which is a violation clause 'hang'."""
     from . import kernel
     signal.signal(signal.SIGALRM, _alarm)
+    _ALARM['fired'] = False
     signal.setitimer(signal.ITIMER_REAL, RUN_WALL_LIMIT_S)
     try:
-        res = mod.execute(scn, keep_log=keep_log) if keep_log else mod.execute(scn)
+        try:
+            res = mod.execute(scn, keep_log=keep_log) if keep_log else mod.execute(scn)
+        except Exception as e0:
+            if _ALARM['fired']:
+                # the alarm interrupted the interpreter's own locking code (threading raises RuntimeError then): it is the time-out all the same
+                raise RunTimeout() from e0
+            raise
     except RunTimeout as e:
         site = lib_site_of_exception(e)
         if not site and kernel.CURRENT is not None and kernel.CURRENT.current is not None:
